@@ -11,6 +11,7 @@ import (
 	"errors"
 	"flag"
 	"os"
+	"os/exec"
 	"fmt"
 	"regexp"
 	"sort"
@@ -583,5 +584,66 @@ func main() {
 		xrun.Explore(r, name, xrun.Opts{Kind: "loop", Bound: ev.Pick(r, 2, 3), Budget: 30, Recycle: 4,
 			Param: loopworld.Cfg{Native: native, Cancel: true, ListFaults: true, LoadFaults: true, StoreFaults: 1, Remote2: true, AppPoints: []string{"none"}}})
 	}
+	racePass(r)
 	r.Finish()
+}
+
+var reRaceFn = regexp.MustCompile(`(?m)^  (github\.com/PowerDNS/lightningstream/[^\s(]+)\(`)
+
+// racePass: auxiliary, free-running, sampling. The scenario bodies run with real timers under the Go race
+// detector (a cooperative scheduler hides unsynchronised accesses by construction).
+func racePass(r *ev.Run) {
+	p := &ev.Part{Name: "e-race-pass (sampling, not exhaustive)", Engine: "-race", Exhaustive: false}
+	defer r.AddPart(p)
+	build := exec.Command("go", "build", "-race", "-tags", "verif", "-o", "/verif/.build/c17race", "./checks/c17race")
+	build.Dir = "/verif/mc"
+	build.Env = append(os.Environ(), "GOFLAGS=-mod=mod", "GOPROXY=off")
+	if out, err := build.CombinedOutput(); err != nil {
+		p.Bound = "race build failed: " + string(out)
+		p.Note = "not run"
+		fmt.Fprintln(os.Stderr, "race pass: build failed:", string(out))
+		return
+	}
+	rounds := ev.Pick(r, 5, 60)
+	cmd := exec.Command("/verif/.build/c17race", "-rounds", fmt.Sprint(rounds), "-dur", "300ms")
+	cmd.Env = append(os.Environ(), "GORACE=halt_on_error=0 exitcode=66")
+	out, err := cmd.CombinedOutput()
+	text := string(out)
+	p.Executions = int64(2 * rounds)
+	p.Transitions = int64(2 * rounds)
+	p.States = 1
+	p.Bound = fmt.Sprintf("%d free-running rounds of 300 ms (3 sync loops with cleaner and sweeper enabled, writing applications, event subscribers that close mid-delivery, token releases from several goroutines, GetGlobal/SetGlobal) under the race detector", 2*rounds)
+	p.Samples = []any{"round: native, instances a,b,c, 300 ms"}
+	blocks := strings.Split(text, "WARNING: DATA RACE")
+	for _, b := range blocks[1:] {
+		fns := reRaceFn.FindAllStringSubmatch(b, -1)
+		var names []string
+		seen := map[string]bool{}
+		for _, f := range fns {
+			n := strings.TrimPrefix(f[1], "github.com/PowerDNS/lightningstream/")
+			if !seen[n] && len(names) < 2 {
+				seen[n] = true
+				names = append(names, n)
+			}
+		}
+		if len(b) > 2500 {
+			b = b[:2500]
+		}
+		r.Violate(p.Name, "data-race:"+strings.Join(names, "|"), "race detector report:"+b, map[string]any{"report": b})
+	}
+	if strings.Contains(text, "fatal error:") || strings.Contains(text, "panic:") {
+		i := strings.Index(text, "fatal error:")
+		if i < 0 {
+			i = strings.Index(text, "panic:")
+		}
+		msg := text[i:]
+		if len(msg) > 2000 {
+			msg = msg[:2000]
+		}
+		r.Violate(p.Name, "crash-in-free-running-pass", msg, nil)
+	} else if strings.Contains(text, "HANG:") {
+		r.Violate(p.Name, "goroutines-do-not-stop-after-cancel", "free-running pass: goroutines still running 20 s after cancellation", nil)
+	} else if err != nil && len(blocks) == 1 {
+		r.Violate(p.Name, "race-pass-failed", fmt.Sprintf("%v\n%s", err, text[max(0, len(text)-1500):]), nil)
+	}
 }
